@@ -14,6 +14,8 @@ import (
 	"fmt"
 	"math"
 	"path/filepath"
+	"sort"
+	"strings"
 
 	"adharness/c12/entry"
 	. "adharness/common"
@@ -413,6 +415,53 @@ func runEntryStream(o Opts, r *Rng, n int) {
 	}
 }
 
+// ---------------------------------------------------------------- stream H: sequences sharing an InSitu struct
+const hdrH = "From Coq Require Import ZArith List Bool Floats.\nFrom ADV Require Import C12.CorrH.\nImport ListNotations.\n"
+
+func seqRaw(c entry.SeqCase) map[string]interface{} {
+	return map[string]interface{}{"stream": "H", "entry": c.Entry, "opts": c.Opts, "outcomes": c.Outcomes, "msgs": c.Msgs,
+		"changed": c.Changed, "retained": c.Retained, "aliases": c.Aliases, "spec": c.Spec}
+}
+
+func runSeqStream(o Opts, r *Rng, extra int) {
+	w := NewCaseWriter(o.Out, "hcases", hdrH, "hmism", 40)
+	w.Type = "hcase"
+	w.Rule = "H: 2-4 calls of one entry point sharing a caller-owned InSitu struct, fresh inputs per call; non-trivial iff at least two calls completed and the struct reached storage after the first"
+	cases := entry.GenerateSeqs(r, extra)
+	cases = append(cases, entry.GenerateStatSeqs(r.Split(), extra/2)...)
+	w.Extra["sequence_entry_points"] = entry.SeqEntryNames()
+	w.Extra["statistics_sequences"] = entry.StatSeqNames()
+	aliases := map[string]bool{}
+	for _, c := range cases {
+		w.Count("H:" + c.Entry)
+		w.Count(fmt.Sprintf("H:calls=%d", len(c.Refs)))
+		for _, oc := range c.Outcomes {
+			w.Count("H:outcome:" + oc)
+		}
+		if c.Timeout {
+			w.Count("H:cut-by-deadline")
+		}
+		for _, a := range c.Aliases {
+			aliases[a] = true
+		}
+		for _, ob := range c.Objs {
+			w.Count(fmt.Sprintf("H:object-role-%d", ob.Role))
+		}
+		key := c.Entry + "|" + strings.Join(c.Opts, "|")
+		w.Add(c.Coq(), seqRaw(c), key, len(c.Refs) >= 2)
+	}
+	al := []string{}
+	for a := range aliases {
+		al = append(al, a)
+	}
+	sortStrings(al)
+	w.Extra["returned_objects_that_alias_the_callers_InSitu_or_estimator"] = al
+	w.Extra["calls_cut_by_deadline"] = entry.Timeouts()
+	if err := w.Flush(); err != nil {
+		Die("flush: %v", err)
+	}
+}
+
 // ---------------------------------------------------------------- hunt driver
 func hunt(o Opts) int {
 	rng := NewRng(o.Seed*7919 + 13)
@@ -479,9 +528,35 @@ func hunt(o Opts) int {
 				map[string]interface{}{"stream": "E", "entry": sc.Entry, "opts": sc.Opts, "changed": sc.Changed, "spec": sc.Spec, "full": json.RawMessage(js)}, 0})
 		}
 	}
+	hs := entry.GenerateSeqs(rng.Split(), o.N)
+	hs = append(hs, entry.GenerateStatSeqs(rng.Split(), o.N/2)...)
+	for _, c := range hs {
+		if c.Bad() {
+			sc := entry.ShrinkSeq(c)
+			add(seqFinding(sc))
+		}
+	}
 	writeJSON(filepath.Join(o.Out, "hunt.json"), map[string]interface{}{"found": len(finds) > 0, "findings": finds})
 	fmt.Printf("hunt: %d distinct findings\n", len(finds))
 	return 0
+}
+
+func sortStrings(a []string) { sort.Strings(a) }
+
+func seqFinding(sc entry.SeqCase) Finding {
+	what := ""
+	if len(sc.Retained) > 0 {
+		what = fmt.Sprintf("the caller's InSitu struct / the estimator retains a reference to %v (object@call)", sc.Retained)
+	}
+	if len(sc.Changed) > 0 {
+		if what != "" {
+			what += "; "
+		}
+		what += fmt.Sprintf("object(s) the caller holds changed in a LATER call: %v (object@call)", sc.Changed)
+	}
+	raw := seqRaw(sc)
+	raw["objs"] = sc.Objs
+	return Finding{"H", sc.Entry, fmt.Sprintf("%s (options per call %v)", what, sc.Opts), raw, 0}
 }
 
 // optClass: the option string without buffer details that do not matter for the site of a finding
@@ -544,6 +619,16 @@ func replayCase(stream string, raw json.RawMessage, out string) *Finding {
 			js, _ := ec.ToJSON()
 			return &Finding{"E", ec.Entry, fmt.Sprintf("input object %v changed (options %s)", ec.Changed, ec.Opts),
 				map[string]interface{}{"stream": "E", "entry": ec.Entry, "opts": ec.Opts, "changed": ec.Changed, "spec": ec.Spec, "full": json.RawMessage(js)}, 0}
+		}
+	case "H":
+		var c struct {
+			Spec json.RawMessage `json:"spec"`
+		}
+		json.Unmarshal(raw, &c)
+		hc, err := entry.ReplaySeqAny(c.Spec)
+		if err == nil && hc.Bad() {
+			f := seqFinding(entry.ShrinkSeq(hc))
+			return &f
 		}
 	case "A":
 		return appendCapacityProbe()
